@@ -227,7 +227,17 @@ def run_ephemeral(case):
         pushed = [p.get("id") for p in r["pushed"]]
         if not ok or pushed.count(eid) != 1:
             viol.append({"clause": "ephemeral-delivered-live", "sig": nm, "detail": "%s ok=%r pushed=%r" % (nm, r["ok"], pushed)})
+    # an expired event too; every one of them is fetched over HTTP once BEFORE the pass (a response cache must not outlive the event)
+    sess.submit(uni["exp_Tm1"])
+    for nm in ("k20000", "k29999", "k19999", "exp_Tm1"):
+        sess.w.http_get(uni[nm]["id"])
     gc_pass(sess, TS["T17"])
+    for nm in ("k20000", "k29999", "exp_Tm1"):
+        body = sess.w.http_get(uni[nm]["id"])
+        if not isinstance(body, tuple):
+            viol.append({"clause": "ephemeral-not-queryable-after-pass", "sig": nm + ":http", "detail": "%s is still served by /e/<id> after a GC pass" % nm})
+    if isinstance(sess.w.http_get(uni["k19999"]["id"]), tuple):
+        viol.append({"clause": "nothing-else-removed", "sig": "k19999-http", "detail": "kind 19999 is not served by /e/<id> after the pass"})
     for nm in ("k20000", "k29999"):
         eid = uni[nm]["id"]
         ids, eose, notice, closed = sess.query_ids([{"ids": [eid]}])
@@ -287,8 +297,18 @@ def run_periodic(case):
             w.sql.disarm()
         else:
             w.env.fault = None
+        # an expired event that arrives only now (a driver that also ran at start has nothing left from before): the passes that follow
+        # the failed one must still collect it
+        w.send("w", ["EVENT", uni["exp_Tm1_tagged"]])
+        late_id = uni["exp_Tm1_tagged"]["id"]
+        if late_id not in store.decode_store(backend, w.dump()):
+            raise HarnessError("periodic scenario: the late expiring event was not stored")
         w.run(horizon=301)  # second pass
+        w.run(horizon=301)  # third pass
         after = store.decode_store(backend, w.dump())
+        if late_id in after:
+            viol.append({"clause": "periodic-survives-error", "sig": backend + ":late",
+                         "detail": "an expired event stored after a failed pass is still there two collect_intervals later: the periodic driver stopped"})
         exp_id = uni["exp_Tm1"]["id"]
         if exp_id not in before:
             raise HarnessError("periodic scenario: expiring event was not stored")
